@@ -313,7 +313,7 @@ def wave_capture_cpu(c, c_loc, c_len, vector, time=TMAX, sd=0.0, seed=1):
         if acc >= 0.99:
             val = 1
         elif acc > 0.01:
-            seed = (seed << 4) + (vector << 20) + c_loc
+            seed = (seed << 4) + (vector << 20) + int(c_loc)
             seed = int(0xDEECE66D) * seed + 0xB
             seed = int(0xDEECE66D) * seed + 0xB
             rnd = float((seed >> 8) & 0xffffff) / float(1 << 24)
